@@ -1,5 +1,5 @@
 """C01 — mnemonic phrases and entropy are in exact BIP-39 correspondence."""
-from ..gen import PROFILES, both, complete_last, lib_case, messy_layout, rand_bytes, rand_words, UNICODE_WS
+from ..gen import PROFILES, both, complete_last, lib_case, messy_layout, rand_bytes, rand_words
 from ..ref import bip39
 from ..run.core import V
 
@@ -12,23 +12,13 @@ RULE = ("mnemonic.parse events judged by an independent BIP-39 decoder; complete
         "oracle classified the phrase and the accept/reject decision and printed form were compared")
 ILLEGAL = [n for n in range(0, 41) if n not in bip39.LEGAL_COUNTS]
 REQUIRED = (["accept-%d" % n for n in bip39.LEGAL_COUNTS] + ["reject-count-%d" % n for n in ILLEGAL]
-            + ["reject-checksum-%d" % n for n in bip39.LEGAL_COUNTS] + ["reject-word", "layout-messy-accept",
+            + ["reject-checksum-%d" % n for n in bip39.LEGAL_COUNTS] + ["reject-word", "layout-messy-accept", "layout-unicode-whitespace-accept",
                                                                            "lastword-valid-%d" % 12, "lastword-valid-24"])
 
 
 def split_ascii(phrase):
-    out = []
-    cur = []
-    for ch in phrase:
-        if ch in bip39.ASCII_WS:
-            if cur:
-                out.append("".join(cur))
-                cur = []
-        else:
-            cur.append(ch)
-    if cur:
-        out.append("".join(cur))
-    return out
+    """Words of a phrase. "Whitespace" is the Unicode White_Space property (the name is historical)."""
+    return bip39.split_ws(phrase)
 
 
 def judge_parse(case, obs):
@@ -36,17 +26,6 @@ def judge_parse(case, obs):
     x = case["x"]
     phrase = case["steps"][0]["lib"]["phrase"]
     v = V()
-    if x.get("ws") == "unicode":
-        # unspecified layout: only "if accepted, the natural result" is checked
-        words = x["words"]
-        if "ok" in o:
-            if bip39.classify(words) != "ok" or o["ok"]["printed"] != " ".join(words):
-                v.bad("C01/unicode-ws/accepted-wrong", "phrase with Unicode-only whitespace accepted with an unnatural result")
-            v.bucket("either-unicode-ws-accepted")
-        else:
-            v.bucket("either-unicode-ws-rejected")
-        v.nontrivial = False
-        return v
     words = split_ascii(phrase)
     n = len(words)
     cls = bip39.classify(words)
@@ -69,6 +48,8 @@ def judge_parse(case, obs):
             v.bucket("%s-valid-%d" % (tag, n))
         if phrase != want:
             v.bucket("layout-messy-accept")
+            if any(ord(c) > 127 for c in phrase):
+                v.bucket("layout-unicode-whitespace-accept")
     else:
         if "ok" in o:
             if cls == "count":
@@ -205,11 +186,13 @@ def gen(shard, rng, tier):
             words = rand_words(rng, n - 1)
             words = words + [complete_last(rng, words)]
             yield from both(_case(messy_layout(rng, words), "valid-%d" % n, "layout"))
-            if rng.random() < 0.3:
-                # Unicode-only whitespace between two words: unspecified (either)
+            if rng.random() < 0.4:
+                # non-ASCII White_Space characters as separators / padding
+                ws = bip39.UNICODE_WS
+                yield from both(_case(messy_layout(rng, words, ws), "valid-%d" % n, "layout"))
                 i = rng.randrange(1, n)
-                phrase = " ".join(words[:i]) + rng.choice(UNICODE_WS) + " ".join(words[i:])
-                yield _case(phrase, "unicode-ws", "layout", ws="unicode", words=words)
+                phrase = " ".join(words[:i]) + rng.choice(ws[6:]) + " ".join(words[i:])
+                yield from both(_case(phrase, "valid-%d" % n, "layout"))
             if rng.random() < 0.3:
                 # a separator that is NOT whitespace glues two words together -> unknown word
                 i = rng.randrange(1, n)
